@@ -245,7 +245,7 @@ PROPS["C17"] = {
     "rule": ("cases = generated pmetric.Metrics batches (pools of 1-3 resources, 1-3 scopes, 1-4 metric identities of the five types, "
              "combined with repetition and interleaving; attributes of every AnyValue kind with nested arrays and maps of 0-4 entries, "
              "growing re-used attribute lists; points of all five types flagged NoRecordedValue, with exemplars, number points also without "
-             "a value; per-point bounds incl. pairs differing only in a NaN or the sign of a zero; "
+             "a value; histogram points without buckets; per-point bounds incl. pairs differing only in a NaN or the sign of a zero; "
              "exemplars; float classes NaN payloads, -0.0, inf, subnormal, max), converted by go/pdata/metrics in all four "
              "combinations (unsorted|sorted writer x unsorted|sorted reader) and compared as multisets of data points by the harness's own "
              "flattening; a clean stream (no known trigger; any failure is a fresh violation) plus one stream per known trigger class; "
